@@ -13,19 +13,8 @@ def observers(cls, src, rng, nps):
     d = nps.normal(size=(6, 3))
     d /= np.linalg.norm(d, axis=1)[:, None]
     out = [d[:3] * nps.uniform(2.2, 4, (3, 1)), d[3:] * nps.uniform(8, 40, (3, 1))]
-    inside = None
-    if cls == "Cuboid":
-        inside = nps.uniform(-0.3, 0.3, (2, 3)) * src.dimension
-    elif cls == "Cylinder":
-        inside = np.array([[0.2 * src.dimension[0] / 2, 0.1 * src.dimension[0] / 2, 0.15 * src.dimension[1]], [0, 0, 0.05 * src.dimension[1]]])
-    elif cls == "Sphere":
-        inside = nps.uniform(-0.25, 0.25, (2, 3)) * src.diameter / 2
-    elif cls == "CylinderSegment":
-        r1, r2, h, p1, p2 = src.dimension
-        r, ph = (r1 + r2) / 2, np.radians((p1 + p2) / 2)
-        inside = np.array([[r * np.cos(ph), r * np.sin(ph), 0.1 * h]])
-    elif cls in ("Tetrahedron", "TriangularMesh"):
-        inside = np.asarray(src.vertices).mean(axis=0)[None] * np.ones((1, 3))
+    from oracles.sources import interior_points
+    inside = interior_points(cls, src, nps, 6 if cls in ("TriangularMesh", "Tetrahedron") else 3)
     return np.concatenate(out), inside
 
 
